@@ -834,7 +834,16 @@ type guardKey struct {
 var (
 	expGuards = map[*ssa.BasicBlock][]Guard{}
 	expBusy   = map[*ssa.BasicBlock]bool{}
+	// expBusyHits counts the expansions cut short because the block was already being expanded
+	expBusyHits int
 )
+
+// maxGuardNesting bounds how deep the expansion of implied guards follows merged values into the guards of
+// their incoming edges. In a large loop body every block is on a cycle through every other and the
+// unbounded expansion is exponential (wsync.ComputeDiff: minutes); implications that need more than this
+// many merges in a row are not derived (the guard lists get shorter, never longer).
+var maxGuardNesting = 5
+
 
 // BlockGuards returns the branch outcomes that hold whenever block b runs:
 // the outcomes of dominating edges, plus what those imply. A branch on a
@@ -847,9 +856,11 @@ func BlockGuards(b *ssa.BasicBlock) []Guard {
 		return g
 	}
 	direct := directGuards(b)
-	if expBusy[b] {
+	if expBusy[b] || len(expBusy) >= maxGuardNesting {
+		expBusyHits++
 		return direct
 	}
+	hits0 := expBusyHits
 	expBusy[b] = true
 	out := append([]Guard{}, direct...)
 	seen := map[guardKey]bool{}
@@ -866,7 +877,9 @@ func BlockGuards(b *ssa.BasicBlock) []Guard {
 		}
 	}
 	delete(expBusy, b)
-	if len(expBusy) == 0 {
+	// a result computed without running into a block that is still being expanded does not depend on
+	// where the expansion started: it can be kept even when this call is a nested one
+	if len(expBusy) == 0 || expBusyHits == hits0 {
 		expGuards[b] = out
 	}
 	return out
